@@ -7,6 +7,11 @@
   * the metadata keywords of the `parts[1] == …` chain
   * `!= 1` of the info check, `[0, 1]` of the stateset check, the unit-forbidden types, the type exempted from the
     timestamp-order check, `METRIC_TYPES` (metrics_core.py, enforced by `Metric.__init__` inside `build_metric`)
+  * the guards that keep other exception classes from escaping, each as a Bool the model branches on (true = guard
+    present): KeyError→ValueError around the field look-ups of `_parse_nh_struct`; `if is_nh: …; continue` before the
+    per-sample checks; the second suffix test of `_parse_nh_sample` (name taken from the braces); the `isinstance`
+    coercion in `Timestamp.__gt__/__lt__` (samples.py); `isinstance(sample.value, float)` in the NaN test; the numeric
+    NaN test of the `le` label
   * the regular-expression classes `\\w`, `\\s`, `\\d` of `_parse_nh_struct` as code point ranges of the running
     interpreter (an interpreter fact, like Generated/Unicode.lean)
 """
@@ -16,7 +21,7 @@ import re
 from leanlit import *
 
 TARGET = 'OMParse'
-SOURCES = ['prometheus_client/openmetrics/parser.py', 'prometheus_client/metrics_core.py']
+SOURCES = ['prometheus_client/openmetrics/parser.py', 'prometheus_client/metrics_core.py', 'prometheus_client/samples.py']
 
 OPS = {ast.Lt: 'lt', ast.LtE: 'le', ast.Gt: 'gt', ast.GtE: 'ge', ast.Eq: 'eq', ast.NotEq: 'ne'}
 PYOP = {'lt': '<', 'le': '<=', 'gt': '>', 'ge': '>=', 'eq': '==', 'ne': '!='}
@@ -85,7 +90,8 @@ DEFAULT = dict(
     typeSuffixes=[], nanSuffixes=[], negSuffixes=[], bucketOrderCmp='le', bucketValueCmp='lt', countCmp='ne',
     negBucketCmp='lt', gsumNegCmp='lt', exemplarMaxLen=0, exemplarLenCmp='gt', kwHelp='', kwType='', kwUnit='',
     infoCmp='ne', infoValue=0, statesetValues=[], unitForbidden=[], tsOrderExempt=[], metricTypes=[],
-    histTypes=[], untyped='', summaryNegCmp='lt')
+    histTypes=[], untyped='', summaryNegCmp='lt', nhStructCatchesKeyError=False, nhSkipsChecks=False,
+    nhSuffixRecheck=False, tsCoerce=False, nanGuardsFloat=False, leNaNNumeric=False)
 
 
 def _emit(ok, v, whys):
@@ -134,6 +140,14 @@ def _emit(ok, v, whys):
     out += 'def tsOrderExempt : List (List Char) := %s\n' % strlist(v['tsOrderExempt'])
     out += '/-- `metrics_core.METRIC_TYPES` (`Metric.__init__` raises ValueError for any other type) -/\n'
     out += 'def metricTypes : List (List Char) := %s\n' % strlist(v['metricTypes'])
+    out += '-- guards against escaping exception classes (true = present in the source)\n'
+    for k, doc in (('nhStructCatchesKeyError', "`try: … items[...] … except KeyError: raise ValueError` in _parse_nh_struct"),
+                   ('nhSkipsChecks', "`if is_nh: samples.append(sample); continue` before the per-sample checks"),
+                   ('nhSuffixRecheck', "second `if name.endswith(suffixes): raise` after the name is taken from the labels"),
+                   ('tsCoerce', "`if not isinstance(other, Timestamp): return float(self) > other` (and `<`) in samples.Timestamp"),
+                   ('nanGuardsFloat', "`isinstance(sample.value, float) and math.isnan(sample.value)`"),
+                   ('leNaNNumeric', "`math.isnan(float(sample.labels.get('le', \"NaN\")))` instead of the spelling test `== \"NaN\"`")):
+        out += '/-- %s -/\ndef %s : Bool := %s\n' % (doc, k, 'true' if v[k] else 'false')
     out += '/-- `re` classes of the running interpreter for str patterns: \\w, \\s, \\d (inclusive code point ranges) -/\n'
     out += 'def reWordRanges : List (Nat × Nat) := %s\n' % _rangelit(v.get('w', []))
     out += 'def reSpaceRanges : List (Nat × Nat) := %s\n' % _rangelit(v.get('s', []))
@@ -191,11 +205,12 @@ def generate(repo):
     def suffix_checks():
         n1 = _if_raising(main, 'Counter-like samples cannot be NaN')
         t = n1.test
-        if not (isinstance(t, ast.BoolOp) and isinstance(t.op, ast.And) and len(t.values) == 2
+        rest = [ast.unparse(x) for x in t.values[1:]] if isinstance(t, ast.BoolOp) and isinstance(t.op, ast.And) else None
+        if not (rest in (['math.isnan(sample.value)'], ['isinstance(sample.value, float)', 'math.isnan(sample.value)'])
                 and isinstance(t.values[0], ast.Compare) and isinstance(t.values[0].ops[0], ast.In)
-                and ast.unparse(t.values[0].left) == 'sample.name[len(name):]'
-                and ast.unparse(t.values[1]) == 'math.isnan(sample.value)'):
+                and ast.unparse(t.values[0].left) == 'sample.name[len(name):]'):
             raise Fail('NaN check shape changed: %s' % ast.unparse(t))
+        v['nanGuardsFloat'] = len(rest) == 2
         v['nanSuffixes'] = _str_list(t.values[0].comparators[0], 'NaN suffix list')
         n2 = _if_raising(main, 'Counter-like samples cannot be negative')
         t = n2.test
@@ -357,10 +372,95 @@ def generate(repo):
                     "if not eof:\n    raise ValueError('Missing # EOF at end')"]:
             raise Fail('tail of the parser changed: %s' % ' / '.join(g.replace('\n', ' ') for g in tail))
 
+    def guards():
+        # _parse_nh_struct: the five look-ups, bare or inside try/except KeyError -> raise ValueError
+        st = find_func(tree, '_parse_nh_struct')
+        want = ["count_value = int(items['count'])", "sum_value = int(items['sum'])", "schema = int(items['schema'])",
+                "zero_threshold = float(items['zero_threshold'])", "zero_count = int(items['zero_count'])"]
+        tries = [n for n in st.body if isinstance(n, ast.Try)]
+        bare = [ast.unparse(n) for n in st.body if isinstance(n, ast.Assign)]
+        if len(tries) == 1 and [ast.unparse(x) for x in tries[0].body] == want:
+            hs = tries[0].handlers
+            if not (len(hs) == 1 and hs[0].type is not None and ast.unparse(hs[0].type) == 'KeyError'
+                    and len(hs[0].body) == 1 and isinstance(hs[0].body[0], ast.Raise)
+                    and ast.unparse(hs[0].body[0].exc).startswith('ValueError(') and not tries[0].orelse and not tries[0].finalbody):
+                raise Fail('_parse_nh_struct: try/except shape not understood')
+            v['nhStructCatchesKeyError'] = True
+        elif not tries and all(w in bare for w in want):
+            v['nhStructCatchesKeyError'] = False
+        else:
+            raise Fail('_parse_nh_struct: field look-ups changed')
+        # main loop: `if is_nh: samples.append(sample); continue` before the stateset label test
+        loop = [n for n in main.body if isinstance(n, ast.For) and ast.unparse(n.target) == 'line'][0]
+        branch = loop.body[3]
+        while isinstance(branch, ast.If) and branch.orelse and not (len(branch.orelse) == 1 and isinstance(branch.orelse[0], ast.If)):
+            break
+        # the sample branch is the final else of `if line == '# EOF' … elif line.startswith('#') … else`
+        elif_ = branch.orelse[0] if len(branch.orelse) == 1 and isinstance(branch.orelse[0], ast.If) else None
+        if elif_ is None:
+            raise Fail('sample branch not found')
+        body = elif_.orelse
+        srcs = [ast.unparse(x) for x in body]
+        skip = 'if is_nh:\n    samples.append(sample)\n    continue'
+        first_check = [i for i, x in enumerate(srcs) if x.startswith("if typ == 'stateset' and name not in sample.labels:")]
+        if len(first_check) != 1:
+            raise Fail('stateset label test not found in the sample branch')
+        if skip in srcs:
+            if srcs.index(skip) != first_check[0] - 1:
+                raise Fail('`if is_nh: …; continue` is not directly before the per-sample checks')
+            v['nhSkipsChecks'] = True
+        else:
+            if any(x.startswith('if is_nh') for x in srcs):
+                raise Fail('unexpected `if is_nh` statement in the sample branch')
+            v['nhSkipsChecks'] = False
+        # _parse_nh_sample: suffix test repeated after the name is taken from the labels
+        ns = find_func(tree, '_parse_nh_sample')
+        blocks = [n for n in ast.walk(ns) if isinstance(n, ast.If) and ast.unparse(n.test) == 'not name']
+        if len(blocks) != 1:
+            raise Fail('_parse_nh_sample: `if not name:` block not found')
+        bs = [ast.unparse(x) for x in blocks[0].body]
+        if "del labels['__name__']" not in bs:
+            raise Fail("_parse_nh_sample: del labels['__name__'] not found")
+        after = bs[bs.index("del labels['__name__']") + 1:]
+        v['nhSuffixRecheck'] = bool(after) and after[0].startswith('if name.endswith(suffixes):\n    raise ValueError(')
+        if any('endswith' in x for x in after[1:]):
+            raise Fail('_parse_nh_sample: unexpected extra suffix test')
+        # samples.Timestamp.__gt__ / __lt__
+        smp = parse(repo, SOURCES[2])
+        res = []
+        for meth, op in (('__gt__', '>'), ('__lt__', '<')):
+            f = find_func(smp, meth, cls='Timestamp')
+            body_ = [ast.unparse(x) for x in f.body]
+            last = 'return self.nsec %s other.nsec if self.sec == other.sec else self.sec %s other.sec' % (op, op)
+            guard = 'if not isinstance(other, Timestamp):\n    return float(self) %s other' % op
+            if body_ == [guard, last]:
+                res.append(True)
+            elif body_ == [last]:
+                res.append(False)
+            else:
+                raise Fail('Timestamp.%s changed: %s' % (meth, ' / '.join(body_).replace('\n', ' ')))
+        if res[0] != res[1]:
+            raise Fail('Timestamp.__gt__ and __lt__ differ in their coercion')
+        v['tsCoerce'] = res[0]
+        fl = find_func(smp, '__float__', cls='Timestamp')
+        if [ast.unparse(x) for x in fl.body] != ['return float(self.sec) + float(self.nsec) / 1000000000.0']:
+            raise Fail('Timestamp.__float__ changed')
+        # the le test
+        n = _if_raising(main, 'Invalid le label')
+        t = ast.unparse(n.test)
+        new = "name + '_bucket' == sample.name and (math.isnan(float(sample.labels.get('le', 'NaN'))) or _isUncanonicalNumber(sample.labels['le']))"
+        old = "name + '_bucket' == sample.name and (sample.labels.get('le', 'NaN') == 'NaN' or _isUncanonicalNumber(sample.labels['le']))"
+        if t == new:
+            v['leNaNNumeric'] = True
+        elif t == old:
+            v['leNaNNumeric'] = False
+        else:
+            raise Fail('le test changed: %s' % t)
+
     def metric_types():
         val = find_assign(core, 'METRIC_TYPES')
         v['metricTypes'] = _str_list(val, 'METRIC_TYPES')
 
-    for fn in (type_suffixes, suffix_checks, hist_ops, exemplar_limit, keywords, value_checks, eof_and_blank, metric_types):
+    for fn in (type_suffixes, suffix_checks, hist_ops, exemplar_limit, keywords, value_checks, eof_and_blank, metric_types, guards):
         site(fn)
     return _emit(not whys, v, whys)
